@@ -57,11 +57,16 @@ def case(g, tier, ci):
     for _ in range(r.randint(0, 5)):
         k = r.random()
         nm = r.choice(names) if names else "x"
-        if k < 0.12:
+        if k < 0.2:
             # mark the segment that is currently last, or any
             nmk = names[-1] if names and r.random() < 0.6 else nm
+            mid = r.choice([1, 2])
             ops.append({"op": "bp.setSegMarker", "id": "b", "name": nmk, "specs": [q(r.choice([0, 1, -1]) / SR), q(r.choice([1, 2, 3]) / SR)],
-                        "mid": r.choice([1, 2])})
+                        "mid": mid})
+            if r.random() < 0.4:
+                # ... and re-specified with length 0 (the end of a pulse-length sweep): the window is gone
+                ops += [{"op": "bp.desc", "id": "b"}, {"op": "el.addBP", "id": "e", "ch": 1, "bp": "b"}, {"op": "el.getArrays", "id": "e", "time": False},
+                        {"op": "bp.setSegMarker", "id": "b", "name": nmk, "specs": [q(r.choice([0, 1]) / SR), q(0)], "mid": mid}]
         elif k < 0.35:
             n = r.randint(2, 12)
             ops.append({"op": "bp.insert", "id": "b", "pos": r.choice([-1, -1, r.randint(0, len(names)), 0]), "fn": "ramp", "args": [0, 1],
